@@ -626,6 +626,12 @@ def check_c05(S, rt, how):
         if exempt:
           exempt = False
           skip_edge = True
+        elif prev is not None and not (prev.ast_node in S.ids and _is_raise(S, S.ids[prev.ast_node])):
+          # a handler entered from a statement that is not an explicit raise: the exception
+          # was raised implicitly (by a call or an operation), which the graph does not
+          # model and the property exempts; the entry edge is not checked, everything
+          # from the handler on is
+          skip_edge = True
       elif k == 'leave':
         left = ev[2]
       elif k == 'p':
@@ -774,13 +780,21 @@ def check_c06(S, rt, how):
     for p in fi.params:
       writer[p] = S.ids[F['node'].args]
     exempt = False
+    cur_stmt = None
     for ev in rt.events:
       if ev[1] != a:
         continue
       k = ev[0]
+      if k == 'p':
+        cur_stmt = ev[2]
       if k == 'xf':
         exempt = True       # exceptional propagation: outside the claim from here on
       elif k == 'h':
+        if not exempt and cur_stmt is not None and not _is_raise(S, cur_stmt):
+          # handler entered from a statement that is not an explicit raise: an implicit
+          # exception (raised by a call or an operation), which the graph does not model;
+          # the rest of this activation is outside the claim
+          break
         exempt = False
       if exempt:
         continue
@@ -870,9 +884,15 @@ def check_c07(S, rt, how):
     stream, own = _own_stream(S, rt, a)
     # truncate at the first exceptional finally entry (outside the claim)
     cut = len(stream)
+    cur_stmt = None
     for i, ev in enumerate(stream):
+      if ev[0] == 'p':
+        cur_stmt = ev[2]
       if ev[0] == 'xf':
         cut = i
+        break
+      if ev[0] == 'h' and cur_stmt is not None and not _is_raise(S, cur_stmt):
+        cut = i           # implicit exception (see check_c06): outside the claim from here on
         break
     stream = stream[:cut]
     needed = set()
